@@ -44,7 +44,7 @@ def check(repo, names, workdir):
         return {'translator': 'internal error: %s' % repr(e)[:200]}
     sup = os.path.join(lib.COQ, 'theories', 'Proofs', 'GenSupport.vo')
     stamp = str(os.path.getmtime(sup)) if os.path.exists(sup) else '0'
-    key = hashlib.sha1((json.dumps(defs, sort_keys=True) + json.dumps(ties, sort_keys=True) + stamp).encode()).hexdigest()[:20]
+    key = hashlib.sha1((json.dumps(defs, sort_keys=True) + json.dumps(ties, sort_keys=True) + json.dumps(fails, sort_keys=True) + stamp).encode()).hexdigest()[:20]
     cdir = os.path.join(lib.CACHE, 'srctie')
     os.makedirs(cdir, exist_ok=True)
     cp = os.path.join(cdir, 'fn-' + key + '.json')
